@@ -19,7 +19,7 @@ import (
 // come first under ASC and last under DESC unless NULLS FIRST / LAST says otherwise).
 func init() {
 	core.Extend("C17", "family order-twins: 19 function forms x PARTITION BY none/p x the 9 spellings of the order item o ({o, o ASC, o DESC} x {-, NULLS FIRST, NULLS LAST}), all 9 calls in one SELECT "+
-		"(thorough: also every ordered pair of spellings in a SELECT of two calls on the tables of up to 2 rows, and the 9 calls with the item as second key behind v DESC), on every table over the mentioned columns with cells in {NULL,1,2} "+
+		"(thorough: also every pair of spellings in a SELECT of two calls on the tables of up to 2 rows, and the 9 calls with the item as second key behind v DESC), on every table over the mentioned columns with cells in {NULL,1,2} "+
 		"(1 column: 0..4 rows, 2 columns: 0..3 rows, 3 columns: 0..2 rows; thorough one row more as multisets); oracle: the definitional model per column", c17OrdTwinsRun)
 }
 
@@ -103,7 +103,7 @@ func c17OrdTwinPacks(thorough bool) map[int][]*c17FamPack {
 				if thorough && !second {
 					for i := range all {
 						for j := range all {
-							if i != j {
+							if i < j {
 								add([]c17FamItem{all[i], all[j]}, true)
 							}
 						}
